@@ -484,6 +484,65 @@ func translateSqrtFp(repo string, write func(name, imports, content string)) {
 		}
 		sb.WriteString("/-- the statements of `init()` (table construction) -/\ndef initBody : List String := [" + quoteAll(st) + "]\n\n")
 	}
+	// init(): the first two closures (dyadic roots, precomputed blocks) are also translated; the look-up table
+	// closure stays pinned
+	{
+		var initFn *ast.FuncDecl
+		for _, d := range f.Decls {
+			if fd, ok := d.(*ast.FuncDecl); ok && fd.Name.Name == "init" {
+				initFn = fd
+			}
+		}
+		closure := func(k int, lhs string) *ast.FuncLit {
+			as, ok := initFn.Body.List[k].(*ast.AssignStmt)
+			if !ok || len(as.Lhs) != 1 || exprStr(as.Lhs[0]) != lhs {
+				die("sqrtfp: init(): statement %d does not assign %s", k, lhs)
+			}
+			c, ok := as.Rhs[0].(*ast.CallExpr)
+			if !ok || len(c.Args) != 0 {
+				die("sqrtfp: init(): %s is not an immediately invoked closure", lhs)
+			}
+			fl, ok := c.Fun.(*ast.FuncLit)
+			if !ok {
+				die("sqrtfp: init(): %s is not an immediately invoked closure", lhs)
+			}
+			return fl
+		}
+		// (a) roots
+		fl := closure(0, "sqrtPrecomp_PrimitiveDyadicRoots")
+		var st []string
+		for _, s := range fl.Body.List {
+			st = append(st, stmtText(s))
+		}
+		pre := "if _, err := ret[0].SetString(\""
+		if exprStr(fl.Type) != "func() (ret [BaseField2Adicity + 1]feType_SquareRoot)" || len(st) != 6 || !strings.HasPrefix(st[0], pre) ||
+			!strings.HasSuffix(st[0], "\"); err != nil { panic(err) }") ||
+			st[1] != "for i := 1; i <= BaseField2Adicity; i++ { ret[i].Square(&ret[i-1]) }" ||
+			st[2] != "x := big.NewInt(0)" || st[3] != "ret[BaseField2Adicity-1].BigInt(x)" ||
+			st[4] != "if ret[BaseField2Adicity-1].String() != \"-1\" { panic(\"something is wrong with the dyadic roots of unity\") }" || st[5] != "return" {
+			die("sqrtfp: init(): the dyadic-roots closure has an unknown shape: %q", st)
+		}
+		lit := strings.TrimSuffix(strings.TrimPrefix(st[0], pre), "\"); err != nil { panic(err) }")
+		sb.WriteString("/-- the decimal literal of the hard-coded primitive `2^32`-th root of unity -/\ndef rootLiteral : Nat := " + lit + "\n\n")
+		sb.WriteString("section\nvariable {K : Type} [Mul K] [One K] [Zero K]\n\n")
+		sb.WriteString("/-- the closure that fills `sqrtPrecomp_PrimitiveDyadicRoots` (`g` = the literal as a field element; the `-1` self-check is not translated) -/\ndef go_dyadicRoots (g : K) : List K :=\n  let ret : List K := List.replicate (BaseField2Adicity + 1) 0\n  let ret := ret.set 0 g\n  let ret := Loop.forNat 1 (BaseField2Adicity + 1) ret (fun i ret => ret.set i ((ret.getD (i - 1) 0) * (ret.getD (i - 1) 0)))\n  ret\n\n")
+		// reconstruction root
+		if stmtText(initFn.Body.List[1]) != "sqrtPrecomp_ReconstructionDyadicRoot = sqrtPrecomp_PrimitiveDyadicRoots[BaseField2Adicity-sqrtParam_BlockSize]" {
+			die("sqrtfp: init(): the reconstruction root has an unknown shape")
+		}
+		sb.WriteString("/-- index of `sqrtPrecomp_ReconstructionDyadicRoot` among the dyadic roots -/\ndef reconIndex : Nat := BaseField2Adicity - sqrtParam_BlockSize\n\n")
+		// (c) blocks
+		fl = closure(2, "sqrtPrecomp_PrecomputedBlocks")
+		st = nil
+		for _, s := range fl.Body.List {
+			st = append(st, stmtText(s))
+		}
+		if exprStr(fl.Type) != "func() (blocks [sqrtParam_Blocks][1 << sqrtParam_BlockSize]feType_SquareRoot)" || len(st) != 2 ||
+			st[0] != "for i := 0; i < sqrtParam_Blocks; i++ { blocks[i][0].SetOne() for j := 1; j < (1 << sqrtParam_BlockSize); j++ { blocks[i][j].Mul(&blocks[i][j-1], &sqrtPrecomp_PrimitiveDyadicRoots[i*sqrtParam_BlockSize]) } }" || st[1] != "return" {
+			die("sqrtfp: init(): the precomputed-blocks closure has an unknown shape: %q", st)
+		}
+		sb.WriteString("/-- the closure that fills `sqrtPrecomp_PrecomputedBlocks` from the dyadic roots -/\ndef go_blocks (roots : List K) : List (List K) :=\n  let blocks : List (List K) := List.replicate sqrtParam_Blocks (List.replicate (1 <<< sqrtParam_BlockSize) 0)\n  let blocks := Loop.forNat 0 sqrtParam_Blocks blocks (fun i blocks =>\n      let blocks := blocks.set i ((blocks.getD i []).set 0 1)\n      let blocks := Loop.forNat 1 (1 <<< sqrtParam_BlockSize) blocks (fun j blocks =>\n          blocks.set i ((blocks.getD i []).set j (((blocks.getD i []).getD (j - 1) 0) * (roots.getD (i * sqrtParam_BlockSize) 0))))\n      blocks)\n  blocks\n\nend\n\n")
+	}
 	sb.WriteString("end SqrtFp\n")
 	write("SqrtFp.lean", "import GoIpa.Model.Loop\n", sb.String())
 }
